@@ -2,7 +2,7 @@
     followed by [Print Assumptions]. *)
 From Coq Require Import List ZArith NArith Bool.
 From Kardia Require Import Generated.C17Facts C17.Model C17.ProofsBasic C17.ProofsInv C17.ProofsOps
-     C17.ProofsReset C17.ProofsFinal C17.ProofsLimits.
+     C17.ProofsReset C17.ProofsFinal C17.ProofsLimits C17.ProofsReinject C17.ProofsLocals C17.ProofsLocalFlag C17.ProofsQueueCap C17.ProofsPendingLimit C17.SourceTie.
 Import ListNotations.
 Local Open Scope Z_scope.
 
@@ -10,8 +10,11 @@ Local Open Scope Z_scope.
     reload), under every resolution [c] of the heap/map-order choices, preserves the invariant.
     _partial: the invariant [Inv] covers gap-free pending runs from the state nonce, affordability,
     gas limit, disjointness, index = disjoint union, no stale nonces, Nonce(); it does NOT include
-    the slot-limit / locals-exempt clauses (Open.v), and a reset is covered without reinjected
-    (reorged-out) transactions and for non-negative account nonces ([op_ok]). *)
+    the slot limits (separate theorems: C17_pending_limit_after_reorg_partial,
+    C17_queue_limit_after_reorg_partial, C17_account_queue_cap; the locals clauses are
+    C17_local_flag_every_history / C17_price_eviction_spares_locals / C17_setprice_spares_locals);
+    a reset is covered without reinjected (reorged-out) transactions and for non-negative account
+    nonces ([op_ok]) - with reinjection the statement is FALSE: C17_reset_with_reinjection_refuted. *)
 Theorem C17_inv_preserved_partial :
   forall c p o, Inv p -> op_ok o -> Inv (fst (step c p o)).
 Proof. exact inv_step. Qed.
@@ -87,8 +90,9 @@ Print Assumptions C17_reject_unchanged_refuted.
 
 (** GlobalQueue: after every reorg run (the one that follows an add batch, and the one of a head
     reset) the queue is within GlobalQueue unless only local accounts still have queued transactions
-    (the post-condition of truncateQueue).  _partial: the GlobalSlots/AccountSlots post-condition of
-    truncatePending and the AccountQueue cap are not proved (Open.v); SetGasPrice runs no reorg and
+    (the post-condition of truncateQueue).  _partial: without reinjected transactions at a reset (the
+    GlobalSlots/AccountSlots half is C17_pending_limit_after_reorg_partial, the AccountQueue cap
+    C17_account_queue_cap); SetGasPrice runs no reorg and
     can leave the queue over the limit (known finding). *)
 Theorem C17_queue_limit_after_reorg_partial :
   forall c p,
@@ -97,3 +101,85 @@ Theorem C17_queue_limit_after_reorg_partial :
    (forall ch, chain_nonneg ch -> queue_ok (run_reorg c p (Some (ch, [])) [])))%type.
 Proof. exact queue_limit. Qed.
 Print Assumptions C17_queue_limit_after_reorg_partial.
+
+(** A head reset WITH reinjection of reorged-out transactions does not preserve the invariant
+    (refutes the statement kept open so far): sender 1 has state nonce 2 and nonce 2 pending, the
+    price floor was raised to 5; the reorg brings the state nonce back to 0 and reinjects n0 (price
+    10) and n1 (price 1).  n1 is rejected as underpriced, n0 is promoted below the still-pending
+    nonce 2 and demoteUnexecutables only looks for a gap in front: pending = nonces {0, 2}.
+    Go reproduction: corpus/C17/repro_reorg_gap (known finding pending-gap-reinject). *)
+Theorem C17_reset_with_reinjection_refuted :
+  Inv rx_p0 /\ chain_nonneg rx_chain_new /\
+  map t_nonce (p_pending rx_p0) = [2] /\
+  map (fun t => (sender t, t_nonce t)) (p_pending (run_reorg rx_c rx_p0 (Some (rx_chain_new, [rx_n0; rx_n1])) [])) = [(1%N, 0); (1%N, 2)] /\
+  ~ Inv (run_reorg rx_c rx_p0 (Some (rx_chain_new, [rx_n0; rx_n1])) []).
+Proof. exact reset_with_reinjection_refuted. Qed.
+Print Assumptions C17_reset_with_reinjection_refuted.
+
+(** Every transaction of a local account is flagged local in the index (txLookup.locals), after ANY
+    history from pool creation - no side condition on the operations, resets with reinjected
+    transactions included.  Together with the next two theorems: locals are exempt from price
+    eviction. *)
+Theorem C17_local_flag_every_history :
+  forall c0 cfg ch file cs ops,
+  let p := run cs (new_pool c0 cfg ch file) ops in
+  forall t, In t (map fst (p_all p)) -> In (sender t) (p_locals p) -> In (t, true) (p_all p).
+Proof. exact local_flag_every_history. Qed.
+Print Assumptions C17_local_flag_every_history.
+
+(** Locals are exempt from price eviction: the pool-full branch of add (priced.Discard + removeTx)
+    never un-indexes a transaction flagged local, whatever error or success it ends with ... *)
+Theorem C17_price_eviction_spares_locals :
+  forall o p t l p1 oe, Inv p -> make_room o p t l = (p1, oe) ->
+  forall x, In (x, true) (p_all p) -> In (x, true) (p_all p1).
+Proof. exact make_room_spares_locals. Qed.
+Print Assumptions C17_price_eviction_spares_locals.
+
+(** ... and neither does SetGasPrice (priced.Cap + removeTx). *)
+Theorem C17_setprice_spares_locals :
+  forall c p price, Inv p -> forall x, In (x, true) (p_all p) -> In (x, true) (p_all (set_gas_price c p price)).
+Proof. exact set_gas_price_spares_locals. Qed.
+Print Assumptions C17_setprice_spares_locals.
+
+(** AccountQueue: right after its own promotion run a non-local account holds at most AccountQueue
+    queued transactions.  The side condition 0 <= AccountQueue holds for every pool the model builds
+    (NewTxPool sanitizes the configuration: second conjunct). *)
+Theorem C17_account_queue_cap :
+  (forall p a, Inv p -> ~ In a (p_locals p) -> 0 <= c_aqueue (p_cfg p) ->
+               l_len (p_queue (promote_account p a)) a <= c_aqueue (p_cfg p)) /\
+  (forall c, 1 <= c_aqueue (sanitize c)).
+Proof. split; [exact account_queue_cap|exact sanitize_aqueue]. Qed.
+Print Assumptions C17_account_queue_cap.
+
+(** GlobalSlots / AccountSlots: after every reorg run (the one that follows an add batch, and the one
+    of a head reset) the pool holds at most GlobalSlots pending transactions unless every non-local
+    account is within AccountSlots (the post-condition of truncatePending; truncateQueue, which runs
+    after it, never grows a pending list).  The side condition 0 <= AccountSlots holds for every pool
+    the model builds (sanitize: third conjunct).  _partial: a head reset is covered without
+    reinjected transactions (with them the invariant the proof rests on fails:
+    C17_reset_with_reinjection_refuted); SetGasPrice and the expiry loop run no reorg. *)
+Theorem C17_pending_limit_after_reorg_partial :
+  (forall c p dirty, Inv p -> 0 <= c_aslots (p_cfg p) -> pending_ok (run_reorg c p None dirty)) /\
+  (forall c p ch, Inv p -> chain_nonneg ch -> 0 <= c_aslots (p_cfg p) -> pending_ok (run_reorg c p (Some (ch, [])) [])) /\
+  (forall c, 1 <= c_aslots (sanitize c)).
+Proof. split; [exact pending_limit_after_reorg|split; [exact pending_limit_after_reset|exact sanitize_aslots]]. Qed.
+Print Assumptions C17_pending_limit_after_reorg_partial.
+
+(** ... where [pending_ok] reads: *)
+Theorem C17_pending_ok_meaning :
+  forall q, pending_ok q <->
+  (Z.of_nat (length (p_pending q)) <= c_gslots (p_cfg q) \/
+   forall a, ~ In a (p_locals q) -> l_len (p_pending q) a <= c_aslots (p_cfg q)).
+Proof. intros q. reflexivity. Qed.
+Print Assumptions C17_pending_ok_meaning.
+
+(** Source tie: the guards and arithmetic of the model are the expressions /verif/go2coq regenerates
+    from the Go sources of mainchain/tx_pool on every check (Generated/C17Source.v): validateTx in
+    source order, IntrinsicGas with its uint64 overflow guards, the replacement guard of txList.Add,
+    the predicates of Filter/Forward/Cap/Ready/Remove, the price-heap tie order, txPricedList
+    Removed/Cap/Underpriced/Discard, the pool-full branch of add, journalTx, setIfLower, SetGasPrice,
+    the demotion gap test, the truncation loops, the reorg nonce/fork arithmetic, the reorg depth
+    limit and the lifetime test; operands pinned by the _atoms equalities. *)
+Theorem C17_source_tie : C17_source_tie_statement.
+Proof. exact C17_source_tie_proof. Qed.
+Print Assumptions C17_source_tie.
